@@ -1,7 +1,7 @@
 (* C16 — obligations re-decided by the kernel for what is generated from /repo on this run
    (Gen/C16Tables.v: routing tables + MIME map, the source of the two regular expressions the model mirrors). *)
 From Coq Require Import ZArith List Bool.
-From S2T Require Import Lib.PyStr C03.Lib C16.Model Gen.C16Tables.
+From S2T Require Import Lib.PyStr C03.Lib C16.Model C16.Loop Gen.C16Tables.
 From S2T Require C07.Model.
 Import ListNotations.
 Open Scope N_scope.
@@ -39,3 +39,10 @@ Theorem C16_literals :
   str_eqb eml_default_filename ATTACHMENT_NAME = true /\ str_eqb eml_default_mime OCTET_STREAM = true.
 Proof. vm_compute. split; reflexivity. Qed.
 Print Assumptions C16_literals.
+
+(* today's attachment loop of _read_eml_format (translated from the ast, fail-closed: unknown statements become SUnknown)
+   appends exactly one EmailAttachment per iteration and cannot leave an iteration early: premise of
+   C16_eml_loop_one_per_record *)
+Theorem C16_eml_attachment_loop_appends_once : appends_once attachment_loop = true.
+Proof. vm_compute. reflexivity. Qed.
+Print Assumptions C16_eml_attachment_loop_appends_once.
